@@ -177,7 +177,10 @@ func program(c *Case) string {
 			fmt.Fprintf(&b, "import %q\n", imp[1])
 		}
 	}
-	return b.String() + body.String()
+	// a package clause with a file comment and a package comment: exporting the root with
+	// comments has to arrange them, and they belong to the shared source file
+	head := fmt.Sprintf("// generated program %s\n\n// Package prog_%s is what the calls look at.\npackage prog_%s\n\n", c.Suffix, c.Suffix, c.Suffix)
+	return head + b.String() + body.String()
 }
 
 // paths inside snippet i that ops may look at
@@ -263,7 +266,7 @@ func gen(seed uint64, tier string, idx int) sim.CaseI {
 			}
 			op.Path = pathOf(sn)
 		}
-		if wr.Bool(0.1) {
+		if wr.Bool(0.1) || (strings.HasPrefix(op.Kind, "syntax-a") && wr.Bool(0.3)) {
 			op.Path = "" // the root
 		}
 		if wr.Bool(0.25) {
